@@ -14,7 +14,8 @@ ASSUMPTIONS = ['panic sources encoded: assert(overflow) terminators, Option::unw
 
 CORPUS = ['2.1 - 3.0 || <2.3.2 <1.0 =3.2.1-0', '=3.1.0-0', '*', '', 'x', '>=1.2.3 <1.0.0', '<1.2.3', '<=1.2.3', '>1.0.0 <1.0.1', '1.2.3 - 2', '^0.0', '~> 1',
           '>x', '<*', '1 - *', '* - 1', '>=0.0.0-0', '<0.0.0-0', '900719925474099.900719925474099.900719925474099', '^900719925474099', '~900719925474099.900719925474099',
-          '>900719925474099', '<=900719925474099', '900719925474099.x', 'é', '1.2.3\n||\n4', ' ', '||', '|| 1', '1 ||', '1.2.3-a.b.c+d.e', '>=1.0.0-0 <1.0.0-0.0', '=1.0.0+b']
+          '>900719925474099', '<=900719925474099', '900719925474099.x', 'é', '1.2.3\n||\n4', ' ', '||', '|| 1', '1 ||', '1.2.3-a.b.c+d.e', '>=1.0.0-0 <1.0.0-0.0', '=1.0.0+b', '1.2.3-' + 'a' * 255 + 'é']
+VERSION_ERRORS = ['1.2.3-' + 'a' * 255 + 'é', '1' * 300, '1.2.', 'é']
 VERSIONS = ['0.0.0', '0.0.0-0', '1.2.3', '1.0.0-0.0', '900719925474099.900719925474099.900719925474099', '1.0.1-5', '2.0.0', '3.1.0-0', '3.2.1-0']
 
 
@@ -73,6 +74,9 @@ def corpus_group(s):
         prog.append({'id': 'm%d' % i, 'op': 'min_version', 'r': 'r%d' % i})
     for j, t in enumerate(VERSIONS):
         prog.append({'id': 'v%d' % j, 'op': 'version', 'text': t})
+    for j, t in enumerate(VERSION_ERRORS):
+        prog.append({'id': 've%d' % j, 'op': 'version', 'text': t})
+        prog.append({'id': 'vr%d' % j, 'op': 'render', 'x': 've%d!err' % j})
     vids = ['v%d' % j for j in range(len(VERSIONS))]
     n = 0
     for i in range(len(CORPUS)):
